@@ -737,7 +737,7 @@ harness! {
 // itself (`const_eq` of the operands) is covered on the full domain by the harnesses above.
 
 harness! {
-    /// kind=bounded tier=quick bound="4 concrete unequal operand pairs (u8 0/1, u8 255/0, bool true/false, u8 7/200) selected symbolically; assertc_eq! must panic on each" expect_fail="in const_panic::"
+    /// kind=bounded tier=quick bound="4 concrete unequal operand pairs (u8 0/1, u8 255/0, bool true/false, u8 7/200) selected symbolically; assertc_eq! must panic on each" expect_fail="in konst::const_panic::concat_panic_::panic_inner"
     #[kani::unwind(45)]
     fn c16_assertc_eq_panics(s) {
         match s.upto(3) {
@@ -750,7 +750,7 @@ harness! {
 }
 
 harness! {
-    /// kind=bounded tier=quick bound="4 concrete equal operand pairs (u8 0, u8 255, bool false, u8 42) selected symbolically; assertc_ne! must panic on each" expect_fail="in const_panic::"
+    /// kind=bounded tier=quick bound="4 concrete equal operand pairs (u8 0, u8 255, bool false, u8 42) selected symbolically; assertc_ne! must panic on each" expect_fail="in konst::const_panic::concat_panic_::panic_inner"
     #[kani::unwind(45)]
     fn c16_assertc_ne_panics(s) {
         match s.upto(3) {
